@@ -82,6 +82,9 @@ pub trait Observer {
     fn assert(&mut self, _stmt: &Statement, _value: &Val) {}
     fn dimension(&mut self, _stmt: &Statement, _dims: &[usize]) {}
     fn signal_written(&mut self, _path: &str, _value: &Val, _stmt: &Statement) {}
+    /// Called when the evaluation of an arithmetic node is an error (division by zero, ...):
+    /// the node has no value in this run.
+    fn undefined(&mut self, _expr: &Expression) {}
 }
 
 pub struct NoObserver;
@@ -283,7 +286,10 @@ impl<'a> Machine<'a> {
                 let (a, b) = (self.num(&a)?, self.num(&b)?);
                 match self.field.binop(binop_of(*infix_op), &a, &b) {
                     Expect::Value(v) | Expect::ValueOrError(v) => Val::Num(v),
-                    Expect::Error => return self.trap("undefined arithmetic (division by zero)"),
+                    Expect::Error => {
+                        obs.undefined(e);
+                        return self.trap("undefined arithmetic (division by zero)");
+                    }
                 }
             }
             PrefixOp { prefix_op, rhe, .. } => {
@@ -291,7 +297,10 @@ impl<'a> Machine<'a> {
                 let a = self.num(&a)?;
                 match self.field.unop(unop_of(*prefix_op), &a) {
                     Expect::Value(v) | Expect::ValueOrError(v) => Val::Num(v),
-                    Expect::Error => return self.trap("undefined arithmetic"),
+                    Expect::Error => {
+                        obs.undefined(e);
+                        return self.trap("undefined arithmetic");
+                    }
                 }
             }
             SwitchOp { cond, if_true, if_false, .. } => {
